@@ -372,6 +372,8 @@ def run_check(prop, engine_name, tier, level, rule, assumptions, components, sel
     for config, n in configs:
         chunk = max(1, min(engine.chunk_size(config, tier), (n + workers - 1) // workers))
         k = min(selftest_n, n)
+        if hasattr(engine, "selftest_n"):
+            k = min(k, engine.selftest_n(config, tier))
         digest_indices[config] = list(range(k))
         for start in range(0, n, chunk):
             idx = list(range(start, min(n, start + chunk)))
